@@ -11,15 +11,20 @@ demo = os.path.join(seed, "demo.rs")
 try:
     # demo on the unchanged tree
     shutil.copy(demo, "/repo/tests/seed_demo.rs")
-    rc, out = sh("cargo test --offline --test seed_demo 2>&1 | tail -5", cwd="/repo")
-    res["demo_passes_unpatched"] = "test result: ok" in out
+    uses_hook = "astrolabe_verif" in open(demo).read()
+    DEMO = ("RUSTFLAGS='--cfg astrolabe_verif' CARGO_TARGET_DIR=/repo/target/verifcfg " if uses_hook else "") + \
+           "cargo test --offline --test seed_demo 2>&1 | tail -8"
+    rc, out = sh(DEMO, cwd="/repo")
+    import re as _re
+    ran = _re.findall(r"test result: ok\. (\d+) passed", out)
+    res["demo_passes_unpatched"] = bool(ran) and int(ran[-1]) > 0
     rc, out = sh("git apply --check %s/patch.diff" % seed, cwd="/repo")
     res["applies"] = rc == 0
     if rc != 0:
         res["apply_error"] = out[-500:]
         print(json.dumps(res)); sys.exit(0)
     sh("git apply %s/patch.diff" % seed, cwd="/repo")
-    rc, out = sh("cargo test --offline --test seed_demo 2>&1 | tail -8", cwd="/repo")
+    rc, out = sh(DEMO, cwd="/repo")
     res["demo_fails_patched"] = "test result: FAILED" in out or "panicked" in out
     os.remove("/repo/tests/seed_demo.rs")
     rc, out = sh("cargo test --workspace --no-fail-fast --offline 2>&1 | grep -E 'test result|error' ", cwd="/repo")
